@@ -87,7 +87,10 @@ class Subjects(object):
         by = {r: _dedup([_plainf(f) for f in q["filters"] if f["route"] == r]) for r in ("arg", "attached", "comp", "outer")}
         via = q.get("via", "direct")
         level = 2 if (by["outer"] or via == "outer") else 1 if (by["comp"] or via == "comp" or len(sources) > 1) else 0
-        att = S.mk_filters(by["attached"])
+        att = []
+        for f in S.mk_filters(by["attached"]):   # two spellings of one instant give equal Filter objects: attach (and later remove) each once
+            if f not in att:
+                att.append(f)
         try:
             for s in sources:
                 s.filters.add(list(att))
@@ -303,7 +306,7 @@ def run(ctx):
         ctx.cls("populations", "bundlify" if case.get("bundlify") else "plain-files")
         ctx.handle(case, fails)
 
-    core.run_given(ctx, population_and_queries(), body, ctx.n(340, 2500), label="c12-queries")
+    core.run_given(ctx, population_and_queries(), body, ctx.n(340, 1800), label="c12-queries")
     if ctx.evaluations >= 400:
         low = [c for c in REQUIRED_CLASSES if ctx.classes.get(c, 0) < 0.01 * ctx.evaluations]
         if low:
